@@ -588,5 +588,15 @@ def L1_lock_order(ctx):
            what='taking a second guard on the same DashMap while one is live self-deadlocks when both keys fall into one shard')
     # TS of two different indices never nested
     ts_nested = [(fn, line) for (a, c), v in direct_edges.items() if a == 'TS' and c == 'TS' for fn, line, so, gk, ck in v]
-    ctx.ob('L2', 'TS', 'one-transaction-lock-at-a-time', not ts_nested, f'{ts_nested[:3]}',
-           what='no function holds two tx_states locks at once (there is no global order among them)')
+    # ... nor across a call whose callee (transitively) locks a tx_states entry
+    ts_call_sites = set()
+    for fn, lst in held_calls.items():
+        for hcs, callee, line in lst:
+            if 'TS' in hcs:
+                ts_call_sites.add((fn, line, callee))
+                if 'TS' in trans(callee) and (fn, line, 'via ' + callee.split('::')[-1]) not in ts_nested:
+                    ts_nested.append((fn, line, 'via ' + callee.split('::')[-1]))
+    n_ts_calls = len(ts_call_sites)
+    ctx.count('L2.calls-under-a-transaction-lock', n_ts_calls)
+    ctx.ob('L2', 'TS', 'one-transaction-lock-at-a-time', not ts_nested and n_ts_calls >= 10, f'{ts_nested[:3]}; {n_ts_calls} calls to crate functions under a tx_states guard examined',
+           what='no function holds two tx_states locks at once, directly or through a callee (there is no global order among them; the same index would self-deadlock)')
